@@ -172,6 +172,7 @@ theorem pInv_step (H : IdFn) {N : Numbering} {g : Graph} {ds : DS} (hi : PInv N 
   | profLabels pid v => exact ⟨by rw [hstep]; exact hi.profs, by rw [hstep]; exact hi.eps, by rw [hstep]; exact hi.range⟩
   | tier name v => exact ⟨by rw [hstep]; exact hi.profs, by rw [hstep]; exact hi.eps, by rw [hstep]; exact hi.range⟩
   | policy nid key v => exact ⟨by rw [hstep]; exact hi.profs, by rw [hstep]; exact hi.eps, by rw [hstep]; exact hi.range⟩
+  | passthru c key v => exact ⟨by rw [hstep]; exact hi.profs, by rw [hstep]; exact hi.eps, by rw [hstep]; exact hi.range⟩
   | other => exact ⟨by rw [hstep]; exact hi.profs, by rw [hstep]; exact hi.eps, by rw [hstep]; exact hi.range⟩
 
 theorem pInv_run (H : IdFn) {N : Numbering} : ∀ (h : List HStep) {g : Graph} {ds : DS},
